@@ -6,7 +6,7 @@
    Mode "walk"  (TLC -simulate): random Add / Delete / DeleteAll sequences over a small pool of
                 records from two sources (duplicates, deletions of unknown records), validations of
                 the whole route pool (both families, all ten AS_PATH shapes) after every step. *)
-EXTENDS Rpki, RpkiDom, Json, SequencesExt
+EXTENDS Rpki, RpkiDom, Json, SequencesExt, FiniteSetsExt
 
 CONSTANTS Mode, Fam, K, MaxSteps
 
@@ -14,14 +14,9 @@ VARIABLES S, ops, pool
 gvars == <<ps, ms, tbl, S, ops, pool>>
 
 PoolOf(f) == IF f = "v4" THEN Records4 ELSE Records6
-RoutePfxOf(f) == IF f = "v4" THEN RoutePfx4 ELSE RoutePfx6
 Tag(r, c) == [c |-> c, p |-> r.p, m |-> r.m, a |-> r.a]
 
-RouteSeq(P, Sh) == SetToSeq({Route(p, n) : p \in P, n \in Sh})
-(* one foreign-family route: the two trees are independent *)
-SetRoutes == RouteSeq(RoutePfxOf(Fam), {1, 2, 3, 5, 9, 10})
-               \o <<Route(IF Fam = "v4" THEN "2001:db8:1::/48" ELSE "10.1.1.0/24", 1)>>
-WalkRoutes == RouteSeq(RoutePfx4 \cup RoutePfx6, ShapesAll)
+SetKey == IF Fam = "v4" THEN "set-v4" ELSE "set-v6"
 
 (* sets mode *)
 SetOps(T) == LET q == SetToSeq(T)
@@ -34,7 +29,7 @@ SetOps(T) == LET q == SetToSeq(T)
 GenInit == /\ Init
            /\ ops = <<>>
            /\ IF Mode = "sets"
-              THEN S \in {T \in SUBSET PoolOf(Fam) : Cardinality(T) >= 1 /\ Cardinality(T) <= K} /\ pool = {}
+              THEN S \in UNION {kSubset(k, PoolOf(Fam)) : k \in 1..K} /\ pool = {}
               ELSE /\ S = {}
                    /\ pool = LET a == RandomElement(AllRecords)
                              IN {a, RandomElement({x \in AllRecords : x.p = a.p}), RandomElement(Records4),
@@ -50,7 +45,7 @@ GenNext == /\ Mode = "walk" /\ Len(ops) < MaxSteps
 GenSpec == GenInit /\ [][GenNext]_gvars
 
 EmitSets == Mode = "sets" =>
-              PrintT("VPOUT " \o ToJson([kind |-> "sets", routes |-> SetRoutes, ops |-> SetOps(S)]))
+              PrintT("VPOUT " \o ToJson([kind |-> "sets", rk |-> SetKey, routes |-> RoutePool(SetKey), ops |-> SetOps(S)]))
 EmitWalk == (Mode = "walk" /\ Len(ops) = MaxSteps) =>
-              PrintT("VPOUT " \o ToJson([kind |-> "walk", routes |-> WalkRoutes, ops |-> ops]))
+              PrintT("VPOUT " \o ToJson([kind |-> "walk", rk |-> "walk", routes |-> RoutePool("walk"), ops |-> ops]))
 =============================================================================
